@@ -9,6 +9,7 @@ UNITS = [
     {'name': 'shard_edge', 'backend': 'verus', 'tier': 'quick'},
     {'name': 'ef.builder', 'backend': 'verus', 'tier': 'quick'},
     {'name': 'ef.guards', 'backend': 'verus', 'tier': 'quick'},
+    {'name': 'ef.scan', 'backend': 'verus', 'tier': 'quick'},
     {'name': 'rcl.str', 'backend': 'verus', 'tier': 'quick'},
     {'name': 'rcl.read', 'backend': 'verus', 'tier': 'quick'},
     {'name': 'k.rcl_int', 'backend': 'kani', 'tier': 'quick', 'props': ['C09', 'C12']},
